@@ -652,6 +652,12 @@ func (x *Exec) allocFacts(st *State, v *Term, t types.Type) {
 	switch u := t.Underlying().(type) {
 	case *types.Pointer, *types.Chan, *types.Map:
 		st.add(Le(v, top))
+		if pt, ok := u.(*types.Pointer); ok {
+			// every non-nil reference has the dynamic type of the pointer it was reached through
+			if _, named := types.Unalias(pt.Elem()).(*types.Named); named {
+				st.add(Implies(Neq(v, Zero), Eq(App("typeof", SInt, v), IntLit(int64(x.P.typeTag(t))))))
+			}
+		}
 	case *types.Slice:
 		if !isByteSlice(t) {
 			st.add(Le(sliceAcc(v, 0), top))
